@@ -996,6 +996,11 @@ class BOOLEAN(FieldType):
         # word, freq, weight, valuestring
         return [(self.bytestrings[int(bit)], 1, 1.0, emptybytes)]
 
+    def process_text(self, text, **kwargs):
+        # This field has no analyzer; the parser calls this for the bounds of
+        # a range and the contents of a quoted phrase
+        return (self.to_bytes(self._obj_to_bool(text)),)
+
     def self_parsing(self):
         return True
 
